@@ -468,15 +468,26 @@ def evaluate(case, native):
         closed_ = case.get('closed', True)
         n = len(ref) + (2 if closed_ else 1)
         t = case['dep0']
+        tables = case.get('tables')
+
+        def table_at(t_):
+            # time-dependent routing data: the matrix whose timestamp is t_ (look-ups of a correct writer happen at departures,
+            # which all have their own matrix); otherwise the latest matrix not after t_
+            times_ = case['table_times']
+            best = max([x for x in times_ if x <= t_] or [times_[0]])
+            return tables[str(best)]
+        leg_dur = lambda i, t_: (table_at(t_)['dur'] if tables else dur)[i][i + 1]
+        leg_dist = lambda i, t_: (table_at(t_)['dist'] if tables else dist)[i][i + 1]
         arr, dep, waits = [t], [t], [0]
         for i in range(1, n):
-            a = dep[i - 1] + dur[i - 1][i]
+            a = dep[i - 1] + leg_dur(i - 1, dep[i - 1])
             tws, d = (ref[i - 1]['tws'], ref[i - 1]['dur']) if i <= len(ref) else (0, 0)
             arr.append(a)
             waits.append(max(tws - a, 0))
             dep.append(max(a, tws) + d)
-        total_dist = sum(dist[i][i + 1] for i in range(n - 1))
-        driving = sum(dur[i][i + 1] for i in range(n - 1))
+        leg_dists = [leg_dist(i, dep[i]) for i in range(n - 1)]
+        total_dist = sum(leg_dists)
+        driving = sum(leg_dur(i, dep[i]) for i in range(n - 1))
         for r in ref:
             r['kind'] = {'dpickup': 'dyn+', 'ddelivery': 'dyn-'}.get(r['kind'], r['kind'])
         serving = sum(r['dur'] for r in ref if r['kind'] != 'break')
@@ -503,7 +514,7 @@ def evaluate(case, native):
         cum = 0
         for i, stop in enumerate(stops):
             if i > 0:
-                cum += dist[i - 1][i]
+                cum += leg_dists[i - 1]
                 if i <= len(ref):
                     r = ref[i - 1]
                     if r['kind'] == 'reload':
